@@ -13,6 +13,18 @@ PROPS = {
     ),
 }
 
+A_ARK2 = "A-ARK-2: ark_ec twisted-Edwards Projective/Affine (+ - neg double mul_bigint *= into() new zero is_zero) compute what preludes/ark_ec.rs states (ark-ec 0.4.2 group.rs/affine.rs)"
+M_DECAF = "M-DECAF: spec-level facts about spec_encode/spec_decode (decoded points are on the curve; round-trip; coset/scale invariance) -- statements about the specification functions only"
+C09_CONTRACT = "callers use only the four-case contract of sqrt_ratio_zeta (isqrt_ok), decided under C09"
+M_LE32 = "M-LE32: [u8;32] <-> [0,2^256) little-endian is a bijection (le32 axioms)"
+PROPS["C02"] = dict(units=["ark_encoding"], assumptions=[A_ARK1, A_ARK2, M_DECAF, C09_CONTRACT, A_STD, M_LE32, A_WF],
+    explanation="every decoding entry point returns decode_result(bytes): Ok(point) iff the specification's decoding of the canonical, non-negative field element succeeds, else InvalidEncoding",
+    not_decided=["Compress::No / Validate::No arms are unimplemented!() in /repo"])
+PROPS["C03"] = dict(units=["ark_encoding"], assumptions=[A_ARK1, A_ARK2, M_DECAF, C09_CONTRACT, A_STD, M_LE32, A_WF],
+    explanation="vartime_compress_to_field == spec_encode(X,Y,Z,T) for arbitrary coordinates; bytes are the canonical LE form with top three bits clear; all serialisation forms agree")
+PROPS["C01"] = dict(units=["ark_encoding"], assumptions=[A_ARK1, A_ARK2, M_DECAF, C09_CONTRACT, A_STD, M_LE32, A_WF],
+    explanation="round trip = lemma over the two refinements (encode == spec_encode, decode == spec_decode) + M-DECAF")
+
 NOT_APPLICABLE = {
     "C15": "circuit shape / pinned Groth16 keys: the subject is the hidden ark_relations constraint store and binary key files; no pre/postcondition on a /repo function can state matrix equality across runs or SNARK verification (DESIGN.md C15)",
 }
